@@ -129,6 +129,9 @@ def make_builder(h, w, cfg, **kw):
     from cspuz.generator.segmentation import SegmentationBuilder2D
 
     mnb, mxb, mns, mxs = cfg
+    if (h + w + sum(1 for v in cfg if v is not None)) % 2:
+        # every second configuration passes the bounds positionally, in the documented order
+        return SegmentationBuilder2D(h, w, mnb, mxb, mns, mxs, **kw)
     return SegmentationBuilder2D(h, w, min_num_blocks=mnb, max_num_blocks=mxb, min_block_size=mns, max_block_size=mxs, **kw)
 
 
@@ -362,6 +365,21 @@ def notch_states(h, w, positions):
     return out
 
 
+def big_hole_states(h, w):
+    """A board-sized block (more than 256 cells) with a hole, a one-cell bridge and a tail: a small block at the edge that
+    leaves a corner cell hanging on a single bridge cell, and an enclosed single cell."""
+    allc = [(y, x) for y in range(h) for x in range(w)]
+    out = []
+    for small in ([(1, 0), (1, 1)], [(0, 1), (1, 1)], [(h - 2, w - 1), (h - 2, w - 2)], [(1, 0), (1, 1), (1, 2)]):
+        for hole in ((3, 1), (h // 2, w // 2), (h - 4, w - 2)):
+            if hole in small or any(abs(hole[0] - c[0]) + abs(hole[1] - c[1]) <= 1 for c in small):
+                continue
+            rest = [c for c in allc if c not in small and c != hole]
+            if len(comps(rest)) == 1:
+                out.append([rest, list(small), [hole]])
+    return out
+
+
 def explore_states(part, h, w, states, cfg, max_offsets, label):
     """Every update proposed from each of the given states (no closure): invariant on every result."""
     from cspuz.generator import segmentation as seg
@@ -478,6 +496,10 @@ def worker(shard, part):
         _, h, w, max_app, lo, hi = shard
         explore_states(part, h, w, hole_states(h, w, max_app)[lo:hi], (None, None, None, None), 24, "holes")
         return
+    if shard[0] == "bighole":
+        _, h, w = shard
+        explore_states(part, h, w, big_hole_states(h, w), (None, None, None, None), 6, "big-holes")
+        return
     if shard[0] == "notch":
         _, h, w, positions, max_offsets = shard
         explore_states(part, h, w, notch_states(h, w, positions), (None, None, None, None), max_offsets, "notch")
@@ -526,6 +548,8 @@ def main(tier, seed, only=None):
     for (h, w, positions) in ([(4, 4, ((0, 1), (1, 1), (0, 0))), (7, 8, ((0, 3),)), (7, 8, ((3, 3),)), (6, 9, ((5, 4),))] if tier == "quick" else
                               [(4, 4, tuple((y, x) for y in range(4) for x in range(4)))] + [(7, 8, ((y, x),)) for y in range(0, 4) for x in range(0, 4)] + [(6, 9, ((5, 4),)), (8, 8, ((0, 4),)), (8, 8, ((4, 4),)), (5, 11, ((0, 5),)), (10, 6, ((4, 0),))]):
         shards.append(("notch", h, w, positions, 500 if (tier == "quick" and h * w > 20) else None))
+    for (h, w) in ([(17, 17)] if tier == "quick" else [(17, 17), (16, 18), (20, 20)]):
+        shards.append(("bighole", h, w))
     for (h, w, holes) in PARTIAL:
         for cfg in ((None, None, None, None), (None, None, 1, 3), (2, 4, None, None), (None, 3, 2, None)):
             shards.append(("partial", h, w, holes, cfg))
@@ -537,7 +561,7 @@ def main(tier, seed, only=None):
         "over updates proposed by the real candidates(), the two seeds of every split_block call swept over all n^2 pairs, every state "
         "expanded in two presentations (canonical, reversed).  Invariant per state: partition, connected blocks, count and sizes in bounds; "
         "per transition: source value and earlier results unchanged.  Scale family: deterministic walks of 150 (thorough 400) steps on 5x5, 4x8, 10x10 "
-        "(thorough 17x17, 1x40) boards under 6 configurations, judging every proposed update of every visited state; also boards 2x70 / 3x66 and partitions with 272 / 300 single-cell rooms given as initial_blocks.  Partial cover: initial_blocks that leave cells of the board uncovered (6 hole patterns x 4 configurations), BFS of depth 3 from every valid partition of the covered cells; every value must partition exactly the covered cells.  State families (every proposed update judged, no closure): partitions with a block that encloses another (ring around an inner 1x1 .. 2x2 rectangle on 3x5 .. 4x5 boards, thorough to 5x6) extended by every connected choice of a few outside cells; a board minus one cell as one block (4x4 all positions; 7x8, 6x9 selected positions, thorough more) with all seed pairs of the split (quick: 500 evenly spaced pairs on the 7x8 / 6x9 boards)." % (maxcells, " (boards <= 4 cells)" if tier == "quick" else ""),
+        "(thorough 17x17, 1x40) boards under 6 configurations, judging every proposed update of every visited state; also boards 2x70 / 3x66 and partitions with 272 / 300 single-cell rooms given as initial_blocks.  Partial cover: initial_blocks that leave cells of the board uncovered (6 hole patterns x 4 configurations), BFS of depth 3 from every valid partition of the covered cells; every value must partition exactly the covered cells.  State families (every proposed update judged, no closure): partitions with a block that encloses another (ring around an inner 1x1 .. 2x2 rectangle on 3x5 .. 4x5 boards, thorough to 5x6) extended by every connected choice of a few outside cells; a board minus one cell as one block (4x4 all positions; 7x8, 6x9 selected positions, thorough more) with all seed pairs of the split (quick: 500 evenly spaced pairs on the 7x8 / 6x9 boards); a board-sized block of more than 256 cells with a hole, a bridge and a tail on 17x17 (thorough 16x18, 20x20).  Bounds are passed positionally by every second configuration." % (maxcells, " (boards <= 4 cells)" if tier == "quick" else ""),
     )
     run.assumptions = [
         "canonical state = sorted tuple of sorted blocks; sound because the set of proposed successor partitions is independent of block / cell "
@@ -545,7 +569,7 @@ def main(tier, seed, only=None):
         "allow_unmet_constraints_first=True is outside the property (it promises nothing about the first value)",
         "initial_blocks covering only part of the board (the builder supports it: uncovered cells belong to no block) are judged against the covered cells",
     ]
-    first = [sh for sh in shards if sh[0] in ("notch", "walk") and sh[1] * sh[2] >= 50]
+    first = [sh for sh in shards if sh[0] in ("notch", "walk", "bighole") and sh[1] * sh[2] >= 50]
     par.run_shards(run, worker, [sh for sh in shards if sh not in first], seed, first=first)
     cov = {
         "states": run.n("states"),
